@@ -88,6 +88,12 @@ func (e entCase) data() []byte {
 		for len(out) < n {
 			out = append(out, 0)
 		}
+	case "kflat":
+		// exactly K distinct symbols, evenly used, spread over the byte range (alphabet encoding modes)
+		k := max(e.K, 1)
+		for i := 0; len(out) < n; i++ {
+			out = append(out, byte((i%k)*255/max(k-1, 1)))
+		}
 	case "geoR":
 		// K symbols with counts falling geometrically by ratio C/100, the tail clamped to 1, the
 		// dominant symbol absorbing the remainder so that the total is exactly n (deep Huffman trees:
@@ -215,7 +221,7 @@ var famEnt = NewFamily("C12.block", runEntropy)
 
 func init() {
 	register("C12", "exploration", func(c *Ctx) {
-		c.Rule("per codec the complete product: length in {0..40, 63..65, chunk-1, chunk, chunk+1, 2*chunk+7 for the codec's chunk size} + a ladder of 25 odd lengths in 4-16 KiB; histogram in {1 symbol, 2, 16, 255 flat, 256 flat, geometric, Fibonacci and geometric with ratio 0.50..0.80 over 24..250 symbols at totals 2048..16384 (deep Huffman trees, code-length repair and its retry), k rare symbols of count c + m dominant for k in {64,128,192,240,250}, c in 1..12 (quick: {1,3,7,12}), m in {1,2,4,8,16}}; arrangement in {sorted, interleaved, reversed}; the block starts at bit offset 3 and is followed by a 64-bit sentinel + 6 bits. Oracle: decoded == block, decoder consumed exactly the bits the encoder wrote, sentinel intact. Adaptive codecs (CM/TPAQ/TPAQX/FPAQ at 4 MiB) use the reduced grid in quick. Non-trivial = non-empty block")
+		c.Rule("per codec the complete product: length in {0..40, 63..65, chunk-1, chunk, chunk+1, 2*chunk+7 for the codec's chunk size} + a ladder of 25 odd lengths in 4-16 KiB; histogram in {1 symbol, 2, 16, 255 flat, 256 flat, exactly k symbols for 20 alphabet sizes 1..256 (alphabet encoding modes), geometric, Fibonacci and geometric with ratio 0.50..0.80 over 24..250 symbols at totals 2048..16384 (deep Huffman trees, code-length repair and its retry), k rare symbols of count c + m dominant for k in {64,128,192,240,250}, c in 1..12 (quick: {1,3,7,12}), m in {1,2,4,8,16}}; arrangement in {sorted, interleaved, reversed}; the block starts at bit offset 3 and is followed by a 64-bit sentinel + 6 bits. Oracle: decoded == block, decoder consumed exactly the bits the encoder wrote, sentinel intact. Adaptive codecs (CM/TPAQ/TPAQX/FPAQ at 4 MiB) use the reduced grid in quick. Non-trivial = non-empty block")
 		famEnt.Each(c, 0, func(emit func(entCase)) {
 			ladder := []int{}
 			for i := 0; i < 25; i++ {
@@ -247,6 +253,17 @@ func init() {
 								emit(entCase{Codec: codec, Len: 2*chunk + 7, Hist: h, Arr: "inter", Poke: v + 1, PokeAt: at})
 							}
 						}
+					}
+				}
+				for _, n := range []int{1, 5, 64, 300, 4096} {
+					for _, k := range []int{1, 2, 3, 15, 16, 17, 31, 32, 33, 63, 64, 65, 127, 128, 129, 200, 250, 254, 255, 256} {
+						if k > n && n > 1 {
+							continue
+						}
+						if adaptive && !c.Thorough() && n > 300 {
+							continue
+						}
+						emit(entCase{Codec: codec, Len: n, Hist: "kflat", K: k, Arr: "inter"})
 					}
 				}
 				hists := []string{"1sym", "2sym", "16sym", "255flat", "256flat", "geo", "fib"}
